@@ -123,7 +123,7 @@ func fmtGen(r *rand.Rand, lane string) *fmtCase {
 	var lines []string
 	add := func(s string) { lines = append(lines, ind()+s) }
 	entry := func() string {
-		return core.Pick(r, "foo", "bar+", "a|b", `\s*x`, "[a-c]{2}", `(?:x|y)z`, `a\.b`, "[^a]", `\bfoo\b`, "ls", "cat@", "x   y", `"quoted"`, "{{def1}}x", "tr ailing  ", "#notcomment", "##notcomment")
+		return core.Pick(r, "foo", "bar+", "a|b", `\s*x`, "[a-c]{2}", `(?:x|y)z`, `a\.b`, "[^a]", `\bfoo\b`, "ls", "cat@", "x   y", `"quoted"`, "{{def1}}x", "tr ailing  ", "#notcomment", "##notcomment", "caf\u00e9", "\u65e5\u672c", "\u20ac5", "a\u00a0b")
 	}
 	if lane == "structured" || lane == "hostile" {
 		if core.Chance(r, 1, 4) {
@@ -166,7 +166,7 @@ func fmtGen(r *rand.Rand, lane string) *fmtCase {
 			case k < 7:
 				add(entry())
 			case k == 7:
-				add(core.Pick(r, "##! a comment", "##!", "##!comment without space", "##! trailing blanks   "))
+				add(core.Pick(r, "##! a comment", "##!", "##!comment without space", "##! trailing blanks   ", "##! \u00fcber \u65e5\u672c\u8a9e"))
 			case k == 8:
 				lines = append(lines, core.Pick(r, "", "", "   ", "\t", " \t"))
 			case k == 9 && depth < 3:
@@ -192,6 +192,9 @@ func fmtGen(r *rand.Rand, lane string) *fmtCase {
 			case k == 19 && depth > 0:
 				// flag, prefix and suffix lines may stand inside a block; they go to column 0
 				add(core.Pick(r, "##!^ "+core.Pick(r, `\b`, "[a-c]"), "##!$ "+core.Pick(r, `\b`, "[^a-z]"), "##!+ s", "##!+  s "))
+			case k == 18 && lane != "bytes" && core.Chance(r, 1, 6):
+				// a line of 4 KiB or more
+				add(core.Pick(r, "long", "x[a-c]") + strings.Repeat(core.Pick(r, "ab", "0123456789", "wxyz"), 2048+r.Intn(2000)))
 			case k == 17 && lane == "hostile":
 				add(core.Pick(r,
 					"##! ##!> include inc1", "##! note ##!> include inc1", "x ##!> include inc2", "##!^ a ##!> include inc1", "##! ##!> assemble",
@@ -199,6 +202,7 @@ func fmtGen(r *rand.Rand, lane string) *fmtCase {
 					"##!<extra", "##!< trailing", "##!> define a b c", "##!> define a", "##!> include", "##!> include a b c", "##!> include-except inc1",
 					"##!> unknown thing", "##!>", "##!+", "##!^", "##!$", "##! ##!+ i", "##!=> ##!=>", "##!=< ", "foo ##!<", "##!> includeinc1", "##!> include-exceptinc1 exc1",
 					"##!> define  def1   abc   ", "##!> include inc1 -- a", "##!+ x", "##!+ i s",
+					"\u00a0nbsp-first", "\fformfeed-first", "\vvtab-first", "\u3000", "\u00a0##!+ i", "\u2003em-space entry", "\u00a0",
 				))
 			case k == 18 && lane == "hostile":
 				add("##!<") // possibly unbalanced
@@ -550,8 +554,8 @@ func init() {
 		Rule: "generated .ra byte contents in three lanes — structured (balanced blocks, every directive kind with random indentation, inner spacing, CRLF, header already present/partial/double, EOF variants), hostile (near-miss directives, unbalanced markers, lint triggers) and bytes (fragments) — plus pinned edge files (empty, white-space only, header only) are formatted by the built CLI 3 times with --check before and after (one structured file in twelve has 150..500 lines, i.e. is well above 4 KiB); plus trees of six files (rule files, exclude/, include/) in which at most one file, at a PRNG-chosen position of the walk, is not canonical: format --check --all (text and github) must fail exactly then, format --all must leave every file equal to the layout model. " +
 			"Oracle: f(f(x)) = f(x) = f^3(x) byte-wise; --check exit 0 iff f(x) = x and never writes (tree snapshot); header+blank line at the top, exactly one final newline, no CR at line ends, flag/prefix/suffix lines at column 0; for structured cases the output must equal an independent line model of the canonical layout byte for byte. Non-trivial = >= 2 lines and format changed the file. Domain: line terminators are LF or CRLF (no stray CR).",
 		Cases: func(env *core.Env, rng *rand.Rand) []core.Case {
-			cs := fmtCases(env, rng, 300, 6000)
-			for i, n := 0, env.N(60, 1200); i < n; i++ {
+			cs := fmtCases(env, rng, 1000, 8000)
+			for i, n := 0, env.N(150, 1500); i < n; i++ {
 				c := fmtGen(rng, "structured")
 				c.Lane = "all"
 				cs = append(cs, c)
@@ -568,7 +572,7 @@ func init() {
 		Level: "exploration",
 		Rule: "the same three lanes of .ra contents as C09 (the hostile lane carries comment lines that look like directives, text before a directive, block starts with extra words or glued keywords, unbalanced and decorated end markers, directives with surplus or missing arguments). " +
 			"Oracle: `regex generate` on the file before and after `regex format` gives byte-identical stdout and the same success/failure; the sequence of lines with all white space removed is identical apart from the added header and removed trailing blank lines; a refused file stays untouched. Non-trivial = >= 2 non-blank lines and the file was changed.",
-		Cases:         func(env *core.Env, rng *rand.Rand) []core.Case { return fmtCases(env, rng, 300, 6000) },
+		Cases:         func(env *core.Env, rng *rand.Rand) []core.Case { return fmtCases(env, rng, 1000, 8000) },
 		Check:         c10Check,
 		Decode:        decoder[fmtCase](),
 		MinNontrivial: 60,
